@@ -200,12 +200,13 @@ func (w *world) add(b *block) {
 }
 
 func decodeHWP(content []byte) (*types.Header, []byte, error) {
-	hwp, err := ht.DecodeBlockHeaderWithProof(content)
-	if err != nil {
+	// the SSZ container through the generated decoder (C14), the header with go-ethereum's rlp directly
+	hwp := new(ht.BlockHeaderWithProof)
+	if err := hwp.UnmarshalSSZ(content); err != nil {
 		return nil, nil, err
 	}
-	h, err := ht.DecodeBlockHeader(hwp.Header)
-	if err != nil {
+	h := new(types.Header)
+	if err := rlp.DecodeBytes(hwp.Header, h); err != nil {
 		return nil, nil, err
 	}
 	return h, hwp.Proof, nil
@@ -650,22 +651,52 @@ func (w *world) observe(key, content []byte) (o string) {
 		}
 		return fmt.Sprintf("hdr:%s:%d:%s", c02h32(h.Hash().Bytes()), h.Number.Uint64(), w.proofVerdict(h, proof))
 	case ht.BlockBodyType:
-		body, err := history.DecodePortalBlockBodyBytes(content)
-		if err != nil {
+		// the SSZ container (the generated decoder, checked by C14) is opened here; every field is then decoded with
+		// go-ethereum only - NOT with the repository's DecodePortalBlockBodyBytes, whose leniency is what is being judged
+		rb, ok := decodeRawBody(content)
+		if !ok {
+			return "undec"
+		}
+		var txs []*types.Transaction
+		for _, raw := range rb.txs {
+			tx := new(types.Transaction)
+			if tx.UnmarshalBinary(raw) != nil {
+				return "undec"
+			}
+			txs = append(txs, tx)
+		}
+		var uncles []*types.Header
+		if rlp.DecodeBytes(rb.uncles, &uncles) != nil {
 			return "undec"
 		}
 		wd := "-"
-		if body.Withdrawals != nil {
-			wd = c02h32(types.DeriveSha(types.Withdrawals(body.Withdrawals), trie.NewStackTrie(nil)).Bytes())
+		if rb.shanghai {
+			wds := make([]*types.Withdrawal, 0, len(rb.wds))
+			for _, raw := range rb.wds {
+				x := new(types.Withdrawal)
+				if rlp.DecodeBytes(raw, x) != nil {
+					return "undec"
+				}
+				wds = append(wds, x)
+			}
+			wd = c02h32(types.DeriveSha(types.Withdrawals(wds), trie.NewStackTrie(nil)).Bytes())
 		}
-		return fmt.Sprintf("body:%s:%s:%s", c02h32(deriveTx(body.Transactions).Bytes()), c02h32(types.CalcUncleHash(body.Uncles).Bytes()), wd)
+		return fmt.Sprintf("body:%s:%s:%s", c02h32(deriveTx(txs).Bytes()), c02h32(types.CalcUncleHash(uncles).Bytes()), wd)
 	case ht.ReceiptsType:
 		if len(content) == 0 {
 			return fmt.Sprintf("rcpt:%s:1", c02h32(emptyRoot))
 		}
-		rcs, err := history.DecodeReceipts(content)
-		if err != nil {
+		pr := new(history.PortalReceipts)
+		if pr.UnmarshalSSZ(content) != nil {
 			return "undec"
+		}
+		var rcs []*types.Receipt
+		for _, raw := range pr.Receipts {
+			rc := new(types.Receipt)
+			if rc.UnmarshalBinary(raw) != nil {
+				return "undec"
+			}
+			rcs = append(rcs, rc)
 		}
 		return fmt.Sprintf("rcpt:%s:0", c02h32(types.DeriveSha(types.Receipts(rcs), trie.NewStackTrie(nil)).Bytes()))
 	}
@@ -972,6 +1003,32 @@ func (w *world) bodyFieldMutations(r *rand.Rand, c []byte) []mutation {
 		b = rb.cp()
 		b.uncles = []byte{0xc0}
 		add("f-uncles-none", b)
+		// an uncles field that is not the RLP of a header list at all, and every single-bit flip of a short genuine one
+		for _, g := range [][]byte{{}, {0x80}, {0xc1}, {0xc0, 0xc0}, {0xde, 0xad, 0xbe, 0xef}, {0xc1, 0x80}, {0xf8}} {
+			b = rb.cp()
+			b.uncles = g
+			add("f-uncles-garbage", b)
+		}
+		if len(rb.uncles) <= 2 {
+			for i := 0; i < len(rb.uncles)*8; i++ {
+				b = rb.cp()
+				b.uncles[i/8] ^= 1 << uint(i%8)
+				add("f-uncles-bit", b)
+			}
+		}
+		if len(rb.txs) > 0 {
+			b = rb.cp()
+			b.txs[len(b.txs)-1] = []byte{0xc0}
+			add("f-tx-garbage", b)
+		}
+		if rb.shanghai && len(rb.wds) > 0 {
+			b = rb.cp()
+			b.wds[len(b.wds)-1] = []byte{0x80}
+			add("f-wd-garbage", b)
+			b = rb.cp()
+			b.wds[0] = []byte{0xc1}
+			add("f-wd-garbage", b)
+		}
 	}
 	if rb.shanghai {
 		b := rb.cp()
@@ -1053,6 +1110,14 @@ func (w *world) receiptFieldMutations(r *rand.Rand, c []byte) []mutation {
 	}
 	nb, _ := randReceipt(r, 21000, 0).MarshalBinary()
 	add("f-rc-add", append(cp(), nb))
+	if len(items) > 0 {
+		g := cp()
+		g[len(g)-1] = []byte{0xc0}
+		add("f-rc-garbage", g)
+		g = cp()
+		g[0] = []byte{}
+		add("f-rc-garbage", g)
+	}
 	out = append(out, mutation{"f-rc-zero-offset", []byte{0, 0, 0, 0}})
 	return out
 }
